@@ -44,6 +44,11 @@ structure Evidence where
   sigValidOverThis : Bool
   /-- the peer's Finished is the correct one for this handshake's master secret and transcript -/
   finishedCorrect  : Bool
+  /-- the peer holds the private key that belongs to the encryption certificate it presented (the
+  "key-exchange private key").  Ground truth about the peer, known to whoever set the peer up;
+  the client never learns it directly — the Finished is supposed to be the proof.  `true` when
+  nothing is known to the contrary. -/
+  kexKeyHeld       : Bool := true
   deriving DecidableEq, Repr
 
 /-- what is established when a cached session is resumed -/
@@ -116,6 +121,7 @@ def judge (verifying : Bool) (e : Evidence) (s : Option SessionEvidence) (o : Ob
     else if !e.skxPresent then some ("skx-omitted", "completed without a ServerKeyExchange: possession of the signing key was never proved")
     else if !e.sigValidOverThis then some ("signature", "completed although the ServerKeyExchange signature does not verify over this handshake's randoms and parameters")
     else if !e.finishedCorrect then some ("finished", "completed without a correct Finished")
+    else if !e.kexKeyHeld then some ("no-kex-key", "completed with a peer that does not hold the key-exchange private key: a Finished such a peer can produce proves possession of nothing")
     else none
 
 end Gotlcp.Spec.ClientAuthn
